@@ -1,3 +1,4 @@
+pub mod alloc;
 pub mod rng;
 
 use serde_json::{json, Map, Value};
